@@ -50,4 +50,140 @@ theorem generated_pipeline_ok :
       "qualify_outputs", "_expand_group_by", "_expand_order_by_and_distinct_on"] := by
   decide
 
+/-! ## the scope model -/
+
+/-- **qualify_complete** (one scope).  If qualification of a scope succeeds then every source has an alias, the
+    pushed-down column list is consumed, and — `validate` spelled out — every column in the projections, WHERE and
+    GROUP BY names one of those aliases, every column in ORDER BY names one or is a bare output name, and every
+    QUALIFIED column in HAVING names one.  (Bare names in HAVING escape: see `having_bare_counterexample`.) -/
+theorem qualify_complete (g : Gen) (σ : Schema) (outs : List (List String)) (s s' : Scope)
+    (h : qualifyScope g σ outs s = .ok s') :
+    (∀ src ∈ s'.srcs, src.alias.isSome = true) ∧ s'.outer = []
+    ∧ ∃ names : List String, validate names s' = true ∧ ∀ n ∈ names, some n ∈ s'.srcs.map (·.alias) :=
+  qualifyScope_complete g σ outs s s' h
+
+/-- the same for every scope of a whole (flattened) query, any number of scopes -/
+theorem qualify_complete_all (g : Gen) (σ : Schema) (q q' : List Scope) (h : qualifyModel g σ q = .ok q') :
+    q'.length = q.length ∧ ∀ s' ∈ q', Complete s' :=
+  qualifyFrom_complete g σ q [] q' h
+
+def g0 : Gen := ⟨fun i => "_col_" ++ toString i, id⟩
+def σ0 : Schema := [(["t"], ["a", "b"]), (["u"], ["b", "c"])]
+def isOptErr : Except Err Scope → Bool
+  | .error .optimize => true
+  | _ => false
+def sc1 (srcs : List Src) (w : Expr) : Scope :=
+  { outer := [], srcs := srcs, projs := [.item (.lit 1) none], whr := some w, group := [], having := none, order := [] }
+def tSrc : Src := ⟨.table ["t"], none⟩
+def uSrc : Src := ⟨.table ["u"], none⟩
+
+/-- non-vacuity: `SELECT a + 1 AS x, x * 2 AS y, * FROM t WHERE x > 1 ORDER BY y` qualifies -/
+example : (match qualifyModel g0 σ0 [{ outer := [], srcs := [tSrc], projs := [.item (.bin .add (.col none "a") (.lit 1)) (some "x"), .item (.bin .mul (.col none "x") (.lit 2)) (some "y"), .star none []], whr := some (.bin .gt (.col none "x") (.lit 1)), group := [], having := none, order := [.col none "y"] }] with
+    | .ok [s'] => s'.projs.length == 4 && s'.whr == some (.bin .gt (.paren (.bin .add (.col (some "t") "a") (.lit 1))) (.lit 1))
+    | _ => false) = true := by decide +kernel
+
+/-- **star_expansion_schema_order.**  `SELECT *` over sources whose columns are known, distinct and star-free
+    becomes, after `_expand_stars` and `qualify_outputs`, exactly the sources' columns — sources in
+    `Scope.references` order, columns in schema order — each as `alias.column AS column`. -/
+theorem star_expansion_schema_order (cn : Nat → String) (env : Env) (hg : ∀ e ∈ env, GoodSrc e)
+    (hne : ∀ e ∈ env, ∀ c ∈ e.2, c ≠ "") :
+    expandStarTables [] env = .ok ((env.flatMap (fun e => e.2.map (fun c => (e.1, c)))).map
+        (fun p => Proj.item (.col (some p.1) p.2) none))
+    ∧ qualifyOutputs cn 0 [] ((env.flatMap (fun e => e.2.map (fun c => (e.1, c)))).map
+        (fun p => Proj.item (.col (some p.1) p.2) none))
+      = (env.flatMap (fun e => e.2.map (fun c => (e.1, c)))).map
+        (fun p => Proj.item (.col (some p.1) p.2) (some p.2)) := by
+  constructor
+  · rw [expandStarTables_ok [] env hg]
+    congr 1
+    have hf : ∀ l : List String, l.filter (fun _ => true) = l := by
+      intro l; induction l with
+      | nil => rfl
+      | cons x xs ih => simp [List.filter, ih]
+    simp [starCols, List.map_flatMap, List.map_map, Function.comp_def, hf]
+  · apply qualifyOutputs_cols
+    intro p hp
+    simp only [List.mem_flatMap, List.mem_map] at hp
+    obtain ⟨e, he, c, hc, rfl⟩ := hp
+    exact hne e he c hc
+
+example : ∀ e ∈ ([("t", ["a", "b"]), ("u", ["b", "c"])] : Env), GoodSrc e := by
+  intro e he; simp at he; rcases he with rfl | rfl <;> simp [GoodSrc, hasDup]
+
+/-- the order is `references` order: derived tables after tables, whatever the FROM order (known finding
+    C10-star-order-derived-after-tables): `SELECT * FROM (scope 0) AS d, t` lists t's columns first -/
+theorem star_order_tables_first_witness :
+    (match qualifyScope g0 σ0 [["c"]] { outer := [], srcs := [⟨.scope 0 true, some "d"⟩, tSrc], projs := [.star none []], whr := none, group := [], having := none, order := [] } with
+     | .ok s' => outNames s'.projs == ["a", "b", "c"]
+     | _ => false) = true := by decide +kernel
+
+/-- **unresolved_raises** (via the final validation).  A scope is never returned with a column in its projections,
+    WHERE or GROUP BY that lacks a source, or that names a source which is not one of the scope's aliases:
+    if such a column would remain, the outcome is an error.  (Contrapositive of `qualify_complete`, spelled out
+    for WHERE.) -/
+theorem unresolved_raises (g : Gen) (σ : Schema) (outs : List (List String)) (s s' : Scope) (e : Expr)
+    (h : qualifyScope g σ outs s = .ok s') (hw : s'.whr = some e) :
+    ∃ names : List String, visible names [] e = true ∧ ∀ n ∈ names, some n ∈ s'.srcs.map (·.alias) := by
+  obtain ⟨_, _, names, hv, hn⟩ := qualifyScope_complete g σ outs s s' h
+  refine ⟨names, ?_, hn⟩
+  simp only [validate, hw, Bool.and_eq_true] at hv
+  exact hv.1.1.1.2
+
+/-- concretely: an unknown name in WHERE, an ambiguous name, an unknown qualified column and a duplicate alias
+    all raise (finite witnesses, decided by evaluation) -/
+theorem unresolved_raises_witnesses :
+    (isOptErr (qualifyScope g0 σ0 [] (sc1 [tSrc] (.col none "zzz")))
+    && isOptErr (qualifyScope g0 σ0 [] (sc1 [tSrc, uSrc] (.col none "b")))
+    && isOptErr (qualifyScope g0 σ0 [] (sc1 [tSrc] (.col (some "t") "c")))
+    && isOptErr (qualifyScope g0 σ0 [] (sc1 [tSrc] (.col (some "u") "c")))
+    && isOptErr (qualifyScope g0 σ0 [] (sc1 [⟨.table ["t"], some "x"⟩, ⟨.table ["u"], some "x"⟩] (.lit 1)))) = true := by
+  decide +kernel
+
+/-- **qualify_idempotent, partial.**  On a scope in the form `qualify_complete` guarantees (all projections
+    aliased, no bare column left) the second pass's alias expansion (C), star expansion (D) and output
+    qualification (E) are identities.  NOT proved: the same for column resolution (B: needs that every `t.c` kept
+    by the first pass has `c` among `t`'s columns) and positional / ORDER BY rewriting (F); whole-pipeline
+    idempotence is checked by the correspondence run (model and real code, second application) only. -/
+theorem qualify_idempotent_partial (cn : Nat → String) (env : Env) (m : AMap) (cl : Clause) (names : List String)
+    (ps : List Proj) (hps : AllAliased ps) :
+    (∀ (e : Expr) (ctx : Ctx), visible names [] e = true → expand env m cl ctx e = e)
+    ∧ expandStars env ps = .ok ps
+    ∧ qualifyOutputs cn 0 [] ps = ps :=
+  ⟨fun e ctx h => expand_fixed env m cl names e ctx h, expandStars_fixed env ps hps, qualifyOutputs_fixed cn ps 0 hps⟩
+
+/-- and the first pass does produce that form: after `qualify_outputs`, a star-free projection list is fully aliased -/
+theorem qualify_idempotent_all_partial (cn : Nat → String) (ps : List Proj) (outer : List String)
+    (h : hasStar ps = false) : AllAliased (qualifyOutputs cn 0 outer ps) :=
+  qualifyOutputs_allAliased cn ps 0 outer h
+
+/-- concrete second application (decided by evaluation): the result of the non-vacuity example re-qualifies to itself -/
+example : (match qualifyModel g0 σ0 [{ outer := [], srcs := [tSrc], projs := [.item (.bin .add (.col none "a") (.lit 1)) (some "x"), .star none []], whr := some (.bin .gt (.col none "x") (.lit 1)), group := [.lit 1], having := none, order := [.lit 2] }] with
+    | .ok q' => (match qualifyModel g0 σ0 q' with | .ok q'' => q'' == q' | _ => false)
+    | _ => false) = true := by decide +kernel
+
+/-- **output names, partial.**  `qualify_outputs` names a projection by its alias if it has one, else by its column
+    name, else `_col_i`; an outer column list overrides position by position. -/
+theorem output_names_partial (cn : Nat → String) (e : Expr) (a : String) (i : Nat) (ps : List Proj) :
+    qualifyOutputs cn i [] (.item e (some a) :: ps) = .item e (some a) :: qualifyOutputs cn (i + 1) [] ps
+    ∧ qualifyOutputs cn i [] (.item (.col (some "t") a) none :: ps)
+        = .item (.col (some "t") a) (some (if a == "" then cn i else a)) :: qualifyOutputs cn (i + 1) [] ps
+    ∧ ∀ o os, qualifyOutputs cn i (o :: os) (.item e none :: ps) = .item e (some o) :: qualifyOutputs cn (i + 1) os ps := by
+  refine ⟨by simp [qualifyOutputs], ?_, fun o os => by simp [qualifyOutputs]⟩
+  by_cases h : a = "" <;> simp [qualifyOutputs, outAlias, exprName, h]
+
+/-- counter-example to the FULL statement (known finding C10-alias-ref-projection-renamed): in
+    `SELECT a AS x, x FROM t` the second projection is a bare reference to the alias `x`; alias expansion replaces it
+    by `t.a` and `qualify_outputs` then names it `a`: the output names change from [x, x] to [x, a]. -/
+theorem alias_ref_projection_renamed_counterexample :
+    (match qualifyScope g0 σ0 [] { outer := [], srcs := [tSrc], projs := [.item (.col none "a") (some "x"), .item (.col none "x") none], whr := none, group := [], having := none, order := [] } with
+     | .ok s' => outNames s'.projs == ["x", "a"]
+     | _ => false) = true := by decide +kernel
+
+/-- counter-example to the FULL statement (known finding C10-having-bare-name-unvalidated): a bare name in HAVING
+    that resolves to nothing survives qualification (`SELECT a FROM t GROUP BY a HAVING zzz > 1`) -/
+theorem having_bare_counterexample :
+    (match qualifyScope g0 σ0 [] { outer := [], srcs := [tSrc], projs := [.item (.col none "a") none], whr := none, group := [.col none "a"], having := some (.bin .gt (.col none "zzz") (.lit 1)), order := [] } with
+     | .ok s' => s'.having == some (.bin .gt (.col none "zzz") (.lit 1))
+     | _ => false) = true := by decide +kernel
+
 end SqlglotModel.Properties.C10
